@@ -14,13 +14,17 @@ def K : Knobs :=
     constFix := true
     addrConst := false, addrFunc := false, addrVar := true
     skipUnexported := true, skipGenericFunc := true, skipGenericType := true
-    skipConstraintIface := true, skipUnexportedMethod := true
-    variadicType := true, variadicArg := true, defaultNames := true
-    litInt := true, litFloat := true, litString := true
-    replaced := ['/', '-', '.', '~']
+    skipConstraintIface := false, skipNonMethodSet := true, skipUnexportedMethod := true
+    variadicType := true, variadicArg := true, defaultNames := false, freshNames := true
+    guardByName := false, guardStringer := true
+    restrictedStdOnly := true, importIfUsed := true
+    litInt := true, litFloat := true, litString := true, litComplex := true
+    prefixAll := true
+    replaced := []
     tmplOk := true
     defaultMinor := 22 }
 
+set_option maxRecDepth 100000 in
 theorem knobs_expected : knobsOf Expected.C18.facts = K := by decide
 
 @[simp] theorem K_hConst : K.hConst = true := rfl
@@ -34,11 +38,19 @@ theorem knobs_expected : knobsOf Expected.C18.facts = K := by decide
 @[simp] theorem K_skipUnexported : K.skipUnexported = true := rfl
 @[simp] theorem K_skipGenericFunc : K.skipGenericFunc = true := rfl
 @[simp] theorem K_skipGenericType : K.skipGenericType = true := rfl
-@[simp] theorem K_skipConstraintIface : K.skipConstraintIface = true := rfl
+@[simp] theorem K_skipConstraintIface : K.skipConstraintIface = false := rfl
+@[simp] theorem K_skipNonMethodSet : K.skipNonMethodSet = true := rfl
+@[simp] theorem K_freshNames : K.freshNames = true := rfl
+@[simp] theorem K_guardByName : K.guardByName = false := rfl
+@[simp] theorem K_guardStringer : K.guardStringer = true := rfl
+@[simp] theorem K_restrictedStdOnly : K.restrictedStdOnly = true := rfl
+@[simp] theorem K_importIfUsed : K.importIfUsed = true := rfl
+@[simp] theorem K_litComplex : K.litComplex = true := rfl
+@[simp] theorem K_prefixAll : K.prefixAll = true := rfl
 @[simp] theorem K_skipUnexportedMethod : K.skipUnexportedMethod = true := rfl
 @[simp] theorem K_variadicType : K.variadicType = true := rfl
 @[simp] theorem K_variadicArg : K.variadicArg = true := rfl
-@[simp] theorem K_defaultNames : K.defaultNames = true := rfl
+@[simp] theorem K_defaultNames : K.defaultNames = false := rfl
 @[simp] theorem K_litInt : K.litInt = true := rfl
 @[simp] theorem K_litFloat : K.litFloat = true := rfl
 @[simp] theorem K_litString : K.litString = true := rfl
@@ -62,14 +74,14 @@ theorem valForm_K (p : Pkg) (o : Obj) :
 theorem typKept_K (o : Obj) :
     typKept K o = (o.exported && match o.kind with
       | .typ g => !g
-      | .iface g emb _ ms => !g && !(ms.isEmpty && emb != 0)
+      | .iface g _ methodSet _ => !g && methodSet
       | _ => false) := by
   unfold typKept
   cases hx : o.exported <;> cases o.kind <;> simp
 
 theorem wrapKept_K (o : Obj) :
     wrapKept K o = (o.exported && match o.kind with
-      | .iface g emb _ ms => !g && !(ms.isEmpty && emb != 0)
+      | .iface g _ methodSet _ => !g && methodSet
       | _ => false) := by
   unfold wrapKept
   rw [typKept_K]
@@ -82,7 +94,7 @@ theorem fixConst_K (id : Ident) (v : CVal) :
       | .flt n d prec => .lit .FLOAT (.rat (floatText n d prec).1 (floatText n d prec).2)
       | .str s => .lit .STRING (.str s)
       | .bool _ => .value id
-      | .cplx => .value id := by
+      | .cplx re im => .lit .COMPLEX (.cplx (fixPart re) (fixPart im)) := by
   cases v <;> simp [fixConst, bindForm]
 
 /-! ### membership in the four sections -/
